@@ -55,6 +55,7 @@ Apply(vb, s, m, op, i, v) ==
                           ELSE Res(s, m, TRUE, 0, 0, Len(CatStr(vb, s)), CatStr(vb, s) \o <<0>>)
     [] op = "walk" -> Res(s, m, TRUE, 0, 0, Len(s), s)               \* complete getnext loop: value ids in order
     [] op = "sizes" -> Res(s, m, TRUE, 0, Len(s), SumSize(vb, s), <<>>)
+    [] op = "debug" -> Res(s, m, TRUE, 0, 0, 0, <<>>)               \* printing the container changes nothing
     \* front-ends: queue pushes at the back, stack at the front; both pop/get at the front; grow appends
     [] op = "push" -> AddAt(s, m, IF Kind = "stack" THEN 0 ELSE -1, v)
     [] op = "pop" -> PopAt(vb, s, m, 0)
@@ -63,9 +64,9 @@ Apply(vb, s, m, op, i, v) ==
 Adds == {"addat", "addfirst", "addlast", "push"}
 ListOps == [idxv |-> {"addat"}, idx |-> {"getat", "popat", "removeat"}, val |-> {"addfirst", "addlast"},
             noarg |-> {"getfirst", "getlast", "popfirst", "poplast", "removefirst", "removelast", "reverse", "clear",
-                       "toarray", "tostring", "walk", "sizes"}]
-QueueOps == [idxv |-> {}, idx |-> {"getat", "popat"}, val |-> {"push"}, noarg |-> {"pop", "get", "clear", "sizes"}]
-GrowOps == [idxv |-> {}, idx |-> {}, val |-> {"push"}, noarg |-> {"toarray", "tostring", "clear", "sizes"}]
+                       "toarray", "tostring", "walk", "sizes", "debug"}]
+QueueOps == [idxv |-> {}, idx |-> {"getat", "popat"}, val |-> {"push"}, noarg |-> {"pop", "get", "clear", "sizes", "debug"}]
+GrowOps == [idxv |-> {}, idx |-> {}, val |-> {"push"}, noarg |-> {"toarray", "tostring", "clear", "sizes", "debug"}]
 Ops == IF Kind = "list" THEN ListOps ELSE IF Kind = "grow" THEN GrowOps ELSE QueueOps
 Allocating == Adds \cup {"getat", "getfirst", "getlast", "popat", "popfirst", "poplast", "toarray", "tostring", "walk",
                          "pop", "get"}
